@@ -45,10 +45,14 @@ type Val struct {
 
 type State struct {
 	m map[string]Term
+	// epoch is non-empty once every heap has been havocked (a callee or loop
+	// that "modifies heaps"): a heap first read afterwards is a fresh
+	// constant of that epoch, not the entry version.
+	epoch string
 }
 
 func (s *State) clone() *State {
-	n := &State{m: make(map[string]Term, len(s.m))}
+	n := &State{m: make(map[string]Term, len(s.m)), epoch: s.epoch}
 	for k, v := range s.m {
 		n.m[k] = v
 	}
@@ -166,6 +170,12 @@ func (e *Enc) get(st *State, key, sort string) Term {
 	stateSorts[key] = sort
 	if t, ok := st.m[key]; ok {
 		return t
+	}
+	if st.epoch != "" && (strings.HasPrefix(key, "HS.") || strings.HasPrefix(key, "HM.")) {
+		name := key + "@" + st.epoch
+		e.B.declTop(name, fmt.Sprintf("(declare-const %s %s)", name, sort))
+		st.m[key] = name
+		return name
 	}
 	name := key + "@entry"
 	decl := fmt.Sprintf("(declare-const %s %s)", name, sort)
@@ -654,7 +664,14 @@ func (e *Enc) mergeStates(conds []Term, states []*State) *State {
 			keys[k] = true
 		}
 	}
-	out := &State{m: map[string]Term{}}
+	out := &State{m: map[string]Term{}, epoch: states[0].epoch}
+	for _, s := range states[1:] {
+		if s.epoch != out.epoch {
+			// differing havoc histories: untouched heaps are unknown after the join
+			out.epoch = e.B.freshName("ep")
+			break
+		}
+	}
 	var ks []string
 	for k := range keys {
 		ks = append(ks, k)
